@@ -29,7 +29,10 @@ def scenarios(rng, n, tier):
                     o["clock"] = scn["clock0"]
             yield scn
         else:
-            yield scen.gen_life(rng, opts)
+            scn = scen.gen_life(rng, opts)
+            # the count / exactly-once clauses hold for every worker count (batch compared as a set)
+            scn["n_threads"] = rng.choice([1, 1, 1, 0, 2, 4])
+            yield scn
 
 
 def w_tokens(w):
